@@ -653,6 +653,9 @@ impl World {
                 self.entities.remove(id);
             });
 
+        // Entities may have been removed above. Reset next key iter.
+        self.reserved_entities.refresh(&self.entities);
+
         Some(info)
     }
 
